@@ -280,8 +280,10 @@ def interesting_positions(events):
                 depth_action -= 1
                 out["action"].append(i + 1)
         elif fn == YACC_FILE and name == "parse" and line == tl:
-            out["tokens_assign"].append(i)
-            out["tokens_assign"].append(i + 1)
+            # the parser drops its previous token stream here; when that stream is still
+            # suspended its finalisation runs right after this event, so the following
+            # ticks (which a dry run on fresh instances does not have) matter too
+            out["tokens_assign"].extend(range(i, i + 14))
         elif fn == YACC_FILE and name == "restart":
             out["restart"].append(i)
         elif in_grammar and ev == "call":
@@ -794,12 +796,44 @@ def gen_probe_for_aliases(rng, pairs):
     return "%s in (1, 2) and name eq '%s'" % (k, k)
 
 
+def gen_directed_fin(rng, seed, run, pool, dry):
+    """Directed scenario: client 0 re-uses a parser that still references the suspended
+    stream of its earlier aborted parse and is pre-empted *while that stream is being
+    finalised*; client 1 then starts a tokenisation of its own and is pre-empted inside a
+    token action; client 0 finishes the finalisation; client 1 continues."""
+    opcode = rng.random() < 0.1
+    bad = rng.choice(pool["bad"])
+    a1 = rng.choice(pool["valid"])
+    b0t = rng.choice(pool["valid"])
+    share_lexer = rng.random() < 0.3
+    o0 = {"id": "c0o0", "kind": "parse", "text": bad, "lexer": 0, "parser": 0, "linger": False}
+    o1 = {"id": "c0o1", "kind": "parse", "text": a1, "lexer": 0, "parser": 0, "linger": False}
+    b0 = {"id": "c1o0", "kind": rng.choice(["parse", "parse", "tokenize_all", "sa_core"]),
+          "text": b0t, "lexer": 1, "parser": 1, "linger": False}
+    plan = {"property": "C20", "seed": seed, "run": run,
+            "granularity": "opcode" if opcode else "line", "n_lexers": 2, "n_parsers": 2,
+            "start": 0, "clients": [{"ops": [o0, o1]}, {"ops": [b0]}], "points": [],
+            "directed": "fin"}
+    n1, inter1 = dry.get(o1, opcode)
+    ta = inter1["tokens_assign"] or [1]
+    plan["points"].append({"op": "c0o1", "at": rng.choice(ta) + rng.randint(0, 10 if not opcode else 60),
+                           "kind": "preempt", "to": 1})
+    nb, interb = dry.get(b0, opcode)
+    acts = interb["action"] or [max(1, nb // 2)]
+    plan["points"].append({"op": "c1o0", "at": rng.choice(acts), "kind": "preempt", "to": 0})
+    for i, p in enumerate(plan["points"]):
+        p["ord"] = i
+    return plan
+
+
 def gen_directed(rng, seed, run, pool, dry):
     """Directed scenario (about one run in eight): client 0 aborts a parse on lexer 0,
     starts a second tokenisation on the same lexer and is pre-empted inside a token
     action; client 1 then makes the stale stream die - either by re-using the parser
     that still references it (prompt close in another thread) or through a collector
     pass (lingering exception).  Texts, positions and the rest stay random."""
+    if rng.random() < 0.3:
+        return gen_directed_fin(rng, seed, run, pool, dry)
     via_gc = rng.random() < 0.5
     opcode = rng.random() < 0.1
     bad = rng.choice(pool["bad"])
@@ -1106,7 +1140,7 @@ def tier_config(tier):
         return {"runs": 200000, "chunk": 100, "determinism_plans": 60, "max_violations": 6,
                 "min_budget": 400, "wall_limit_s": 3 * 3600, "sweep_hashseeds": 32,
                 "sweep_orders": 8, "opts": {"shorthand": True}}
-    return {"runs": 5000, "chunk": 25, "determinism_plans": 20, "max_violations": 4,
+    return {"runs": 4000, "chunk": 25, "determinism_plans": 20, "max_violations": 4,
             "min_budget": 300, "wall_limit_s": 1500, "sweep_hashseeds": 4,
             "sweep_orders": 3, "opts": {"shorthand": True}}
 
@@ -1332,7 +1366,10 @@ SYSTEMATIC_DOC = (
     "stream referenced by a pooled parser and a pre-emption at EVERY traced event of the "
     "second op, after which another client re-uses that parser (prompt close in another "
     "thread); (C) two clients calling a shorthand, client 0 pre-empted at EVERY traced "
-    "event of its call while client 1 runs a complete call.")
+    "event of its call while client 1 runs a complete call; (D) client 0 pre-empted at every "
+    "tick of the 40-tick window in which the stale stream of its own earlier abort is "
+    "finalised by parser re-use x client 1 pre-empted at every token-action tick of its own "
+    "tokenisation, after which client 0 finishes the finalisation.")
 
 SYS_PAIRS = [
     # (earlier input that aborts, later input)
@@ -1351,6 +1388,17 @@ SYS_PAIRS = [
 ]
 
 
+# quick tier: short later inputs (about 500-900 traced events each), every position tried
+SYS_PAIRS_QUICK = [
+    ("name eq 'abc' and", "id eq 1 and b ne 'x'"),
+    ("foo(name) eq 1", "not (n in (1, 2))"),
+    ("x in (1, 2", "tolower(a) eq 'b'"),
+    ("a eq 1 b eq 2", "p/q gt 2019-01-01"),
+    ("posts/any(p: p/r ge", "x/any(p: p/r ge 3)"),
+    ("tolower(a, b) eq 'x'", "a add 1.5 le -2"),
+]
+
+
 def systematic_jobs(seed, tier):
     """One job per (family, pair, slice); a job enumerates its positions in the worker."""
     if tier == "thorough":
@@ -1362,17 +1410,22 @@ def systematic_jobs(seed, tier):
         # opcode granularity has about five times as many positions: three pairs
         jobs += [{"family": "Aop", "pair": (seed + d) % len(SYS_PAIRS), "slice": s, "nslices": 16}
                  for d in range(3) for s in range(16)]
+        jobs += [{"family": "D", "pair": (seed + d) % len(SYS_PAIRS), "slice": s, "nslices": 16}
+                 for d in range(4) for s in range(16)]
         return jobs
-    pairs = [seed % len(SYS_PAIRS)]
-    nsl = 8
-    fams = ["A", "B", "C"]
-    return [{"family": f, "pair": p, "slice": s, "nslices": nsl}
-            for f in fams for p in pairs for s in range(nsl)]
+    nsl = 6
+    pair = seed % len(SYS_PAIRS_QUICK)
+    jobs = [{"family": f, "pair": pair, "slice": s, "nslices": nsl, "quick": True}
+            for f in ("A", "B", "C") for s in range(nsl)]
+    # D is two-dimensional: quick takes every fifth combination (offset by the seed)
+    jobs += [{"family": "D", "pair": pair, "slice": (seed + 5 * s) % 30, "nslices": 30,
+              "quick": True} for s in range(nsl)]
+    return jobs
 
 
 def systematic_plans(seed, spec):
     fam, pi = spec["family"], spec["pair"]
-    bad, good = SYS_PAIRS[pi]
+    bad, good = (SYS_PAIRS_QUICK if spec.get("quick") else SYS_PAIRS)[pi]
     dry = _W["dry"]
     opcode = fam == "Aop"
     gran = "opcode" if opcode else "line"
@@ -1403,6 +1456,28 @@ def systematic_plans(seed, spec):
                 "granularity": "line", "n_lexers": 2, "n_parsers": 2, "start": 0,
                 "clients": [{"ops": [dict(o0), dict(o1)]}, {"ops": [dict(b0)]}],
                 "points": [{"op": "c0o1", "at": k, "kind": "preempt", "to": 1, "ord": 0}]})
+    elif fam == "D":
+        # client 0 pre-empted at every tick of the window in which the stale stream of
+        # its earlier abort is finalised (parser re-use), client 1 pre-empted inside every
+        # token-action tick of its own tokenisation, then client 0 resumes
+        o0 = {"id": "c0o0", "kind": "parse", "text": bad, "lexer": 0, "parser": 0, "linger": False}
+        o1 = {"id": "c0o1", "kind": "parse", "text": "a eq 1", "lexer": 0, "parser": 0, "linger": False}
+        b0 = {"id": "c1o0", "kind": "parse", "text": good, "lexer": 1, "parser": 1, "linger": False}
+        _, i1 = dry.get(o1, False)
+        _, ib = dry.get(b0, False)
+        t0 = min(i1["tokens_assign"] or [1])
+        window = list(range(t0, t0 + 40))
+        acts = ib["action"]
+        combos = [(k, a) for k in window for a in acts]
+        for idx in range(spec["slice"], len(combos), spec["nslices"]):
+            k, a = combos[idx]
+            label = "sysD-p%d-k%d-a%d" % (pi, k, a)
+            yield (label, {
+                "property": "C20", "seed": seed, "run": label,
+                "granularity": "line", "n_lexers": 2, "n_parsers": 2, "start": 0,
+                "clients": [{"ops": [dict(o0), dict(o1)]}, {"ops": [dict(b0)]}],
+                "points": [{"op": "c0o1", "at": k, "kind": "preempt", "to": 1, "ord": 0},
+                           {"op": "c1o0", "at": a, "kind": "preempt", "to": 0, "ord": 1}]})
     elif fam == "C":
         kinds = ["sa_core", "sa_orm", "django"]
         ka, kb = kinds[pi % 3], kinds[(pi // 3) % 3]
